@@ -834,3 +834,98 @@ func opPairsC01(c *Ctx, tt *tokenTable) {
 	}
 	c.Floor("C01.oppairs", n, 1)
 }
+
+// openerRule: a keyword that opens a group of optional clauses is not left
+// dangling.
+func openerRule(c *Ctx, rule string) {
+	p := c.P
+	c.Rule(rule, "where a printer writes a group keyword (WITH) under a flag and then nothing but individually guarded members, no member that the parser stores by value (a duration, a name) is guarded by a zero test of that value: the parser accepts the zero value (`SHARD DURATION 0s`, `NAME \"\"`), the member then prints nothing, and if it was the only one the keyword stands alone and the text does not parse")
+	n := 0
+	for _, fb := range p.funcBodies() {
+		if fb.Lit != nil || fb.Decl.Name() != "String" {
+			continue
+		}
+		fb := fb
+		fd := p.FuncDecls[fb.Decl]
+		if fd == nil || fd.Recv == nil || len(fd.Recv.List) == 0 || len(fd.Recv.List[0].Names) == 0 {
+			continue
+		}
+		recv := p.Info.Defs[fd.Recv.List[0].Names[0]]
+		ast.Inspect(fb.Body, func(nd ast.Node) bool {
+			is, ok := nd.(*ast.IfStmt)
+			if !ok || is.Else != nil || len(is.Body.List) < 2 {
+				return true
+			}
+			// the flag: a bool field of the receiver
+			sel, ok := ast.Unparen(is.Cond).(*ast.SelectorExpr)
+			if !ok {
+				return true
+			}
+			if id := identOf(sel.X); id == nil || p.Info.ObjectOf(id) != recv {
+				return true
+			}
+			if b, ok := p.Info.TypeOf(sel).Underlying().(*types.Basic); !ok || b.Kind() != types.Bool {
+				return true
+			}
+			// first statement writes a constant ending in a keyword, the rest are ifs
+			kw := ""
+			ast.Inspect(is.Body.List[0], func(m ast.Node) bool {
+				if e, ok := m.(ast.Expr); ok {
+					if tv := p.Info.Types[e]; tv.Value != nil && tv.Value.Kind() == constant.String {
+						w := strings.Fields(constant.StringVal(tv.Value))
+						if len(w) > 0 && w[len(w)-1] == strings.ToUpper(w[len(w)-1]) && len(w[len(w)-1]) > 1 {
+							kw = w[len(w)-1]
+						}
+					}
+				}
+				return true
+			})
+			if kw == "" {
+				return true
+			}
+			var vanishing []string
+			for _, st := range is.Body.List[1:] {
+				m, ok := st.(*ast.IfStmt)
+				if !ok {
+					return true // an unconditional member follows: the keyword never stands alone
+				}
+				be, ok := ast.Unparen(m.Cond).(*ast.BinaryExpr)
+				if !ok {
+					continue
+				}
+				fsel, ok := ast.Unparen(be.X).(*ast.SelectorExpr)
+				if !ok {
+					continue
+				}
+				if id := identOf(fsel.X); id == nil || p.Info.ObjectOf(id) != recv {
+					continue
+				}
+				ft := p.Info.TypeOf(fsel)
+				if _, isPtr := ft.Underlying().(*types.Pointer); isPtr {
+					continue
+				}
+				if tv := p.Info.Types[be.Y]; tv.Value != nil && (be.Op == token.GTR || be.Op == token.NEQ) {
+					zero := false
+					switch tv.Value.Kind() {
+					case constant.Int, constant.Float:
+						zero = constant.Sign(tv.Value) == 0
+					case constant.String:
+						zero = constant.StringVal(tv.Value) == ""
+					}
+					if zero {
+						vanishing = append(vanishing, fsel.Sel.Name)
+					}
+				}
+			}
+			n++
+			key := fmt.Sprintf("%s: group opened by %s under %s", fb.Name, kw, sel.Sel.Name)
+			if len(vanishing) > 0 {
+				c.Bad(rule, key, is.Pos(), "members "+strings.Join(vanishing, ", ")+" print nothing for the zero value the parser accepts: given alone with that value, the text ends in a bare "+kw)
+			} else {
+				c.OK(rule, key, is.Pos(), "every member that is given is printed")
+			}
+			return true
+		})
+	}
+	c.OK(rule, "keyword groups examined", 0, fmt.Sprintf("%d", n))
+}
